@@ -2293,6 +2293,195 @@ def _unroll_literal_loops(fn):
     return n_done
 
 
+# ------------------------------------------------------------------ N18 an object that stands in for a closure -> closures
+
+def _objects_to_closures(modname, tree, inv):
+    """A NEW plain class whose __init__ only stores its parameters, whose fields are never written again, and that is instantiated at
+    exactly one place, inside a function:  each method becomes a nested function of that function (`self.f` -> the value the field was
+    given, `self.m(..)` -> the nested function, bare `self` -> the nested function made from __call__), and the instantiation
+    disappears.  `_Runner(loop, cb).arm(h)` reads `arm(h)` with `arm` and the runner defined in place, which is what it was before
+    somebody turned the closures into an object."""
+    if inv is None:
+        return 0
+    n_done = 0
+    for cls in [c for c in tree.body if isinstance(c, ast.ClassDef)]:
+        if cls.bases or cls.keywords or cls.decorator_list or any(k.startswith(f"{modname}:{cls.name}.") for k in inv):
+            continue
+        meths = {}
+        plain = True
+        for x in cls.body:
+            if isinstance(x, ast.FunctionDef) and not x.decorator_list:
+                meths[x.name] = x
+            elif isinstance(x, ast.Expr) and isinstance(x.value, ast.Constant):
+                continue
+            elif isinstance(x, ast.Pass):
+                continue
+            else:
+                plain = False
+        if not plain or "__init__" not in meths or len(meths) < 2:
+            continue
+        if any(n_.startswith("__") and n_ not in ("__init__", "__call__") for n_ in meths):
+            continue
+        init = meths["__init__"]
+        fields = {}
+        ok = True
+        for st in _helper_body(init):
+            if isinstance(st, ast.Assign) and len(st.targets) == 1 and isinstance(st.targets[0], ast.Attribute) and isinstance(st.targets[0].value, ast.Name) and st.targets[0].value.id == "self" \
+                    and st.targets[0].attr not in fields and not any(isinstance(x, ast.Name) and x.id == "self" for x in ast.walk(st.value)):
+                fields[st.targets[0].attr] = st.value
+            else:
+                ok = False
+        if not ok or not fields:
+            continue
+        # fields are never written outside __init__ (anywhere in the module), methods use self only as self.<field> / self.<method>(..) / the object itself
+        own_ids = {id(x) for x in ast.walk(cls)}
+        if any(isinstance(x, ast.Attribute) and isinstance(x.ctx, (ast.Store, ast.Del)) and x.attr in fields and
+               ((id(x) in own_ids) or not (isinstance(x.value, ast.Name) and x.value.id == "self"))
+               for f_ in ast.walk(tree) if isinstance(f_, FUNC) and f_ is not init for x in ast.walk(f_)):
+            continue          # a method of the class, or code holding some object by another name, writes a field of that name
+        bare_self = False
+        for nm, m in meths.items():
+            if nm == "__init__":
+                continue
+            if not m.args.args or m.args.args[0].arg != "self" or m.args.vararg or m.args.kwarg or m.args.kwonlyargs:
+                ok = False
+                break
+            par = {}
+            for p_ in ast.walk(m):
+                for c in ast.iter_child_nodes(p_):
+                    par[id(c)] = p_
+            for x in ast.walk(m):
+                if isinstance(x, FUNC + (ast.Lambda,)) and x is not m:
+                    ok = False
+                if isinstance(x, ast.Name) and x.id == "self":
+                    p_ = par.get(id(x))
+                    if isinstance(p_, ast.Attribute) and p_.value is x:
+                        if p_.attr in fields and isinstance(p_.ctx, ast.Load):
+                            continue
+                        if p_.attr in meths and p_.attr != "__init__" and isinstance(par.get(id(p_)), ast.Call) and par[id(p_)].func is p_:
+                            continue
+                        ok = False
+                    elif isinstance(x.ctx, ast.Load):
+                        bare_self = True
+                    else:
+                        ok = False
+        if not ok or (bare_self and "__call__" not in meths):
+            continue
+        # exactly one mention of the class outside itself: a call, inside a function
+        inside = {id(x) for x in ast.walk(cls)}
+        mentions = [x for x in ast.walk(tree) if id(x) not in inside and ((isinstance(x, ast.Name) and x.id == cls.name) or (isinstance(x, ast.Attribute) and x.attr == cls.name))]
+        if len(mentions) != 1 or not isinstance(mentions[0], ast.Name):
+            continue
+        site_fn = site_blk = site_idx = site_call = None
+        for fn in [x for x in ast.walk(tree) if isinstance(x, FUNC) and id(x) not in inside]:
+            for blk in _blocks(fn):
+                for i, st in enumerate(blk):
+                    if isinstance(st, FUNC + (ast.ClassDef, ast.If, ast.For, ast.AsyncFor, ast.While, ast.Try, ast.With, ast.AsyncWith)):
+                        continue
+                    for c in ast.walk(st):
+                        if isinstance(c, ast.Call) and c.func is mentions[0]:
+                            site_fn, site_blk, site_idx, site_call = fn, blk, i, c
+        if site_call is None:
+            continue
+        st = site_blk[site_idx]
+        try:
+            prefix, mapping = _bind(init, site_call, True)
+        except _NotInlinable:
+            continue
+        suffix = "__" + cls.name.lstrip("_")
+        fn_locals_multi = {}
+        for x in _walk_local(site_fn):
+            if isinstance(x, ast.Name) and isinstance(x.ctx, (ast.Store, ast.Del)):
+                fn_locals_multi[x.id] = fn_locals_multi.get(x.id, 0) + 1
+        field_expr, field_pre = {}, []
+        for f_, v in fields.items():
+            e = _Renamer(mapping).visit(copy.deepcopy(v))
+            names = {x.id for x in ast.walk(e) if isinstance(x, ast.Name)}
+            if _simple_arg(e) and all(fn_locals_multi.get(n_, 0) <= 1 for n_ in names):
+                field_expr[f_] = e                    # a plain name that this function binds at most once: the field IS that value
+            else:
+                nm = f_ + suffix
+                field_pre.append(ast.copy_location(ast.Assign(targets=[ast.Name(id=nm, ctx=ast.Store())], value=e, lineno=st.lineno), st))
+                field_expr[f_] = ast.Name(id=nm, ctx=ast.Load())
+        fname = {nm: (("call" if nm == "__call__" else nm.lstrip("_")) + suffix) for nm in meths if nm != "__init__"}
+
+        class Conv(ast.NodeTransformer):
+            def visit_Attribute(self, node):
+                if isinstance(node.value, ast.Name) and node.value.id == "self":
+                    if node.attr in fields:
+                        return ast.copy_location(copy.deepcopy(field_expr[node.attr]), node)
+                    return ast.copy_location(ast.Name(id=fname[node.attr], ctx=ast.Load()), node)
+                self.generic_visit(node)
+                return node
+
+            def visit_Name(self, node):
+                if node.id == "self":
+                    return ast.copy_location(ast.Name(id=fname["__call__"], ctx=ast.Load()), node)
+                return node
+        defs = []
+        clash = False
+        site_names = {x.id for x in ast.walk(site_fn) if isinstance(x, ast.Name)} | {a.arg for a in site_fn.args.args}
+        for nm, m in meths.items():
+            if nm == "__init__":
+                continue
+            own = {a.arg for a in m.args.args} | {x.id for x in _walk_local(m) if isinstance(x, ast.Name) and isinstance(x.ctx, (ast.Store, ast.Del))}
+            used_outer = {x.id for e in field_expr.values() for x in ast.walk(e) if isinstance(x, ast.Name)}
+            if own & used_outer or fname[nm] in site_names:
+                clash = True                          # a local of the method would shadow what a field stands for
+            d = copy.deepcopy(m)
+            d.name = fname[nm]
+            d.args.args = d.args.args[1:]
+            d.body = [Conv().visit(s_) for s_ in d.body]
+            ast.copy_location(d, st)
+            ast.fix_missing_locations(d)
+            defs.append(d)
+        if clash:
+            continue
+        # the use: K(args).m(...)  |  K(args) as a value (callable)  |  v = K(args) with v.m(...) / v(...) / v
+        par = {}
+        for p_ in ast.walk(st):
+            for c in ast.iter_child_nodes(p_):
+                par[id(c)] = p_
+        up = par.get(id(site_call))
+        if isinstance(up, ast.Attribute) and up.value is site_call and up.attr in fname and isinstance(par.get(id(up)), ast.Call) and par[id(up)].func is up:
+            _replace_node(st, up, ast.copy_location(ast.Name(id=fname[up.attr], ctx=ast.Load()), up))
+        elif isinstance(st, ast.Assign) and st.value is site_call and len(st.targets) == 1 and isinstance(st.targets[0], ast.Name) and fn_locals_multi.get(st.targets[0].id) == 1:
+            v = st.targets[0].id
+            bad = False
+            fpar = {}
+            for p_ in ast.walk(site_fn):
+                for c in ast.iter_child_nodes(p_):
+                    fpar[id(c)] = p_
+            uses = [x for x in ast.walk(site_fn) if isinstance(x, ast.Name) and x.id == v and isinstance(x.ctx, ast.Load)]
+            for u in uses:
+                p_ = fpar.get(id(u))
+                if isinstance(p_, ast.Attribute) and p_.value is u:
+                    if p_.attr in fname and isinstance(fpar.get(id(p_)), ast.Call) and fpar[id(p_)].func is p_:
+                        continue
+                    bad = True
+                elif "__call__" not in meths:
+                    bad = True
+            if bad:
+                continue
+            for u in uses:
+                p_ = fpar.get(id(u))
+                if isinstance(p_, ast.Attribute) and p_.value is u:
+                    _replace_node(site_fn, p_, ast.copy_location(ast.Name(id=fname[p_.attr], ctx=ast.Load()), p_))
+                else:
+                    _replace_node(site_fn, u, ast.copy_location(ast.Name(id=fname["__call__"], ctx=ast.Load()), u))
+            site_blk[site_idx] = ast.copy_location(ast.Pass(), st)
+        elif "__call__" in meths:
+            _replace_node(st, site_call, ast.copy_location(ast.Name(id=fname["__call__"], ctx=ast.Load()), site_call))
+        else:
+            continue
+        for x in prefix + field_pre:
+            ast.fix_missing_locations(x)
+        site_blk[site_idx:site_idx] = prefix + field_pre + defs
+        tree.body[tree.body.index(cls)] = ast.copy_location(ast.Pass(), cls)
+        n_done += 1
+    return n_done
+
+
 # ------------------------------------------------------------------ N7 nested ifs without else -> one conjunction
 
 def _merge_nested_ifs(fn):
@@ -2685,6 +2874,7 @@ def normalize(modname, tree):
     inv = inventory()
     stats["context_managers"] = _rewrite_context_managers(modname, tree, inv)
     stats["devirtualised"] = _devirtualise(modname, tree, inv)
+    stats["objects_to_closures"] = _objects_to_closures(modname, tree, inv)
     if inv is not None:
         stats["inlined"] = _Inliner(modname, tree, inv).run()
     stats["ifexp_expanded"] = 0
